@@ -39,6 +39,7 @@ CONSTANTS
   Stoppable,    \* SUBSET Runner that may be asked to stop
   MaxCrashes,   \* how many processes may die
   TrackHist,    \* BOOLEAN: model the history log (C10)
+  IndexBeforeRoute,         \* FALSE = behaviour of the pinned commit (index after route, never on the batch path)
   RecoveryAbortsOnLostRace  \* TRUE = behaviour of the pinned commit (defect fixed in /repo, see known_findings.json)
 
 VARIABLES
@@ -172,7 +173,7 @@ C_Register(c) ==
      /\ changes' = [i \in Inv |-> IF i \in S THEN Append(changes[i], <<"registered", c[2]>>) ELSE changes[i]]
      /\ histq' = IF TrackHist THEN histq \cup {<<i, 1, "registered", c[2]>> : i \in S} ELSE histq
   /\ clock' = clock + 1
-  /\ GotoL(c, "c_route", [loc[c] EXCEPT !.k = 1])
+  /\ GotoL(c, IF Mode # "disabled" /\ IndexBeforeRoute THEN "c_index" ELSE "c_route", [loc[c] EXCEPT !.k = 1])
   /\ UNCHANGED <<queue, indexed, retries, result, exc, hist, alive, aged, expired, stopping,
                  accepted, execs, done, inBody, epoch, crashes>>
 
@@ -184,17 +185,19 @@ C_Route(c) ==
      /\ queue' = Append(queue, ids[k])
      /\ IF k < Len(ids) THEN GotoL(c, "c_route", [loc[c] EXCEPT !.k = k + 1])
         ELSE IF CurSub(c).kind = "dup" THEN Goto(c, "c_next") /\ UNCHANGED loc
-        ELSE IF CurSub(c).kind = "single" /\ Mode # "disabled" THEN Goto(c, "c_index") /\ UNCHANGED loc
+        ELSE IF ~IndexBeforeRoute /\ CurSub(c).kind = "single" /\ Mode # "disabled"
+               THEN Goto(c, "c_index") /\ UNCHANGED loc      \* pinned commit: single calls indexed AFTER routing
         ELSE Goto(c, "c_return") /\ UNCHANGED loc
   /\ UNCHANGED <<rec, indexed, retries, result, exc, hist, histq, alive, aged, expired, stopping, clock,
                  accepted, execs, done, inBody, epoch, changes, crashes>>
 
-\* index_arguments_for_concurrency_control: single-call path only (the batch path has no such step)
+\* index_arguments_for_concurrency_control, for every id of the submission, before it is routed
+\* (pinned commit: after routing, single-call path only - the batch path had no such step)
 C_Index(c) ==
   /\ Live(c)
   /\ pc[c] = "c_index"
   /\ indexed' = indexed \cup ToSet(CurSub(c).invs)
-  /\ Goto(c, "c_return")
+  /\ Goto(c, IF IndexBeforeRoute THEN "c_route" ELSE "c_return")
   /\ UNCHANGED <<queue, rec, retries, result, exc, hist, histq, loc, alive, aged, expired, stopping, clock,
                  accepted, execs, done, inBody, epoch, changes, crashes>>
 
